@@ -188,8 +188,11 @@ def gen_cases(tier, seed, shapes=None, per_shape=None):
         terms = ["cv", "cx", "cnt", "red", "find", "first", "any", "all", "ci", "findix"]
         designs = ["prefix", "suffix", "alt"]
         k = 0
+        settings = [(4, ("C", 1)), (3, ("C", 2)), (0, ("C", 0))]
+        if src in gen_harness.PRE_SOURCES:
+            settings = settings + [(1, ("C", 3))]          # the sequential path of a pre-advanced source
         for term in terms:
-            for (nt, cs) in [(4, ("C", 1)), (3, ("C", 2)), (0, ("C", 0))]:
+            for (nt, cs) in settings:
                 k += 1
                 n = 120 if (eager and nt == 4) else 24
                 for design in (designs if src == "vec" else [designs[k % 3]]):
